@@ -771,8 +771,9 @@ def main(argv):
     ap.add_argument("--no-pch", action="store_true")
     ap.add_argument("--examples", type=int, default=0, help="override the number of examples per kept group")
     a, unknown = ap.parse_known_args(argv)
-    if a.prop != "C19":
-        print("engine K serves property C19 only")
+    if a.prop != "C19" and not a.replay:
+        # generation is for C19; compile-level regression inputs of other properties (C10, C11, C20) may be replayed
+        print("engine K generates for property C19 only")
         return 2
     try:
         a.seed = int(a.seed)
